@@ -29,6 +29,7 @@ fn main() {
         None => vec![],
     };
     let out = arg(&args, "--out");
+    nv::node::cap_memory(12 << 30);
     let ctx = Ctx::new(&prop, tier, seed, worker, workers, known);
     let mut rep = Report { property: prop.clone(), tier: if ctx.quick() { "quick".into() } else { "thorough".into() }, seed, worker, ..Default::default() };
     let t0 = Instant::now();
